@@ -97,6 +97,47 @@ def file_roundtrip(desc, backend, now_ms, workdir):
     return attempt(lambda: outcome_of_report(m.loader.load_report_from_file(path)))
 
 
+def _grow_finished_test(rep):
+    """Append a log to the last step of the first FINISHED test that has a step (what a thread that outlives its test does)."""
+    m = impl()
+    for t in rep.all_tests():
+        if t.end_time is not None and t.get_steps():
+            t.get_steps()[-1].add_log(m.R.Log("info", "added after the first save", t.end_time))
+            return True
+    return False
+
+
+def save_twice(desc, backend, now_ms, workdir):
+    """The SAME report object saved, changed (a finished test gets one more log), saved again: the file must be what a single
+    save of an identically changed fresh object gives.  Returns None when it agrees (or does not apply), else a detail."""
+    m = impl()
+    mk = (lambda: m.J.JsonBackend()) if backend == "json" else (lambda: m.X.XmlBackend())
+    rep = G.build_report(desc)
+    b = mk()
+    path = os.path.join(workdir, "twice_" + b.get_report_filename())
+    with FixedClock(now_ms):
+        try:
+            b.save_report(path, rep)
+            if not _grow_finished_test(rep):
+                return None
+            b.save_report(path, rep)
+        except Exception:      # noqa   (unsavable strings: C09's other business)
+            return None
+        fresh = G.build_report(desc)
+        _grow_finished_test(fresh)
+        path2 = os.path.join(workdir, "once_" + b.get_report_filename())
+        try:
+            mk().save_report(path2, fresh)
+        except Exception:      # noqa
+            return None
+    a = attempt(lambda: outcome_of_report(m.loader.load_report_from_file(path)))
+    c = attempt(lambda: outcome_of_report(m.loader.load_report_from_file(path2)))
+    if a != c:
+        return "after save / change / save the %s file loads as %s, a single save of the changed report loads as %s" % (
+            backend, _brief(a), _brief(c))
+    return None
+
+
 def tree_level(desc, now_ms):
     """serialize_report_into_json / serialize_report_as_xml_tree and their inverses, without any text layer."""
     m = impl()
@@ -768,6 +809,19 @@ def check(run):
         for i in range(n_reports):
             d, now, mode = gen_case(run.rng, run.tier, i)
             descs.append((d, now))
+            if i % 5 == 0:
+                # a report is saved several times during a run (intermediate saves): the second save of a changed object
+                for backend in ("json", "xml"):
+                    run.evaluations += 1
+                    run.count("save_change_save_cases")
+                    try:
+                        stale = save_twice(d, backend, now, workdir)
+                    except Exception as e:      # noqa: BLE001
+                        stale = None
+                        run.count("save_change_save_not_applicable")
+                    if stale:
+                        run.violation("%s:second-save-stale" % backend, stale, {"backend": backend, "now_ms": now, "report": d,
+                                                                                "scenario": "save, add a log to a finished test, save again"})
             G.merge_features(feats, G.features(d))
             run.count("strings=" + mode)
             missing = has_missing_start(d)
